@@ -21,7 +21,7 @@ BASE = {
     "Param2Vals": [[20, 49]], "ParamVals": [[50, 50, 49]], "CandNum": 49, "Dev": [],
     "Acts": ["Register", "SetMax", "Authorize", "UnAuthorize", "Withdraw", "Quit", "Black", "White", "Commit", "AddInit", "ReduceInit",
              "SetCost", "Fee", "WithdrawFee", "TransferPenalty"],
-    "WithInvalid": True, "MaxOps": 3, "Script": [], "GenesisOwners": {},
+    "WithInvalid": True, "MaxOps": 3, "Script": [], "GenesisOwners": {}, "UnAuthEdges": False,
     "invariants": "TypeOK Backed NoOverWithdraw TotalPosOK Withdrawable NoWrap",
 }
 ALL_ACTS = list(BASE["Acts"])
@@ -141,12 +141,13 @@ CONSTANTS
   Script <- G_Script
   WithInvalid = %s
   MaxOps = %d
+  UnAuthEdges = %s
 VIEW view
 INVARIANTS %s
 PROPERTIES SplitBounded
 CHECK_DEADLOCK FALSE
 """ % (c["K"], c["PosLimit"], c["Penalty"], c["A"], c["B"], c["MinInitStake"], c["MinAuth"], c["DappFee"], c["SplitNum"],
-       tla(c["HasDapp"]), c["GenesisMax"], c["CandNum"], tla(p2_stored(c)), tla(c["WithInvalid"]), c["MaxOps"], c["invariants"])
+       tla(c["HasDapp"]), c["GenesisMax"], c["CandNum"], tla(p2_stored(c)), tla(c["WithInvalid"]), c["MaxOps"], tla(c["UnAuthEdges"]), c["invariants"])
     if edges:
         cfg += "CONSTRAINT XInitOut\nACTION_CONSTRAINT XEdge\n"
     return {"Governance_Gen.tla": mod, "Governance_Gen.cfg": cfg}
@@ -574,21 +575,55 @@ def sensitivity(ctx, c):
     return r.violated
 
 
+# C11, un-authorize amounts at the boundaries of the addressed record: a1 holds committed pos on g1 (consensus, then demoted to
+# candidate by p1: CandidatePos) and on g7 (consensus: ConsensusPos); then free: authorize fresh pos / un-authorize the boundary
+# amounts of UnAuthBoundary (below / exactly / beyond the fresh NewPos, up to and beyond NewPos + committed pos) / commit / withdraw
+C11_STRADDLE_PREFIX = [
+    {"name": "Authorize", "a": "a1", "p": "g1", "x": 1000}, {"name": "Authorize", "a": "a1", "p": "g7", "x": 1000}, {"name": "Commit"},
+    {"name": "Register", "p": "p1", "a": "o1", "x": 16000}, {"name": "Commit"},
+]
+UNAUTH_CLASSES = ["straddle-consensus-node", "straddle-candidate-node", "fresh-only", "fresh-exactly", "fresh-plus-all-committed"]
+
+
+def unauth_classes(e):
+    """which boundary classes of unAuthorizeForPeer a successful UnAuthorize edge meets (record and node status before the call)"""
+    a = e["act"]
+    c, d, n = e["from"]["au"].get(a["p"] + "/" + a["a"], [0] * 6)[:3]
+    st = e["from"]["pool"].get(a["p"], [-1])[0]
+    com = c if st == 2 else d
+    x = a["x"]
+    out = []
+    if n > 0 and com > 0 and n < x <= n + com:
+        out.append("straddle-consensus-node" if st == 2 else "straddle-candidate-node")
+    if n > 0 and x < n:
+        out.append("fresh-only")
+    if n > 0 and x == n:
+        out.append("fresh-exactly")
+    if n > 0 and com > 0 and x == n + com:
+        out.append("fresh-plus-all-committed")
+    return out
+
+
 def configs(prop, thorough):
     """(tag, configuration, do_edge_replay) list"""
     if prop == "C11":
+        straddle = dict(Script=[full(a) for a in C11_STRADDLE_PREFIX], GenesisPos=DEMOTE_POS, Authorizers=["a1"], AuthTargets=["g1", "g7"],
+                        OpTargets=["g1", "g7"], Acts=["Authorize", "UnAuthorize", "Commit", "Withdraw"], AuthPos=[1000], UnAuthPos=[500],
+                        WdPos=[500], UnAuthEdges=True)
         epoch = dict(Script=[full(a) for a in C11_PREFIX], Acts=C11_EPOCH_ACTS, AuthTargets=["g7", "p1"], OpTargets=["g7", "p1"],
                      UnAuthPos=[500], WdPos=[500])
         demote = dict(Script=[full(a) for a in C11_DEMOTE_PREFIX], GenesisPos=DEMOTE_POS, AuthTargets=["g1", "p1"], OpTargets=["g1", "p1"],
                       Acts=["UnAuthorize", "Withdraw", "Commit", "Authorize", "Quit", "ReduceInit"], UnAuthPos=[500, 1000], WdPos=[500])
-        cs = [conf(tag="stake-d3", MaxOps=3), conf(tag="epochs-d2", MaxOps=2, **epoch), conf(tag="demotion-d2", MaxOps=2, **demote)]
+        cs = [conf(tag="stake-d3", MaxOps=3), conf(tag="epochs-d2", MaxOps=2, **epoch), conf(tag="demotion-d2", MaxOps=2, **demote),
+              conf(tag="unauth-boundary-d2", MaxOps=2, **straddle)]
         if thorough:
             cs = [conf(tag="stake-d3-wide", MaxOps=3, AuthPos=[500, 1500], Acts=[a for a in ALL_ACTS if a not in ("SetCost", "Fee", "WithdrawFee")],
                        invariants=BASE["invariants"] + " NoWrapBlack"),
                   conf(tag="stake-2cand-d3", MaxOps=3, Cand=["p1", "p2"], AuthTargets=["g1", "p1", "p2"], OpTargets=["g7", "p1", "p2"],
                        RegPos=[10000, 16000], Penalty=7),
                   conf(tag="epochs-d4", MaxOps=4, WithInvalid=False, **epoch),
-                  conf(tag="demotion-d4", MaxOps=4, WithInvalid=False, **demote)]
+                  conf(tag="demotion-d4", MaxOps=4, WithInvalid=False, **demote),
+                  conf(tag="unauth-boundary-d3", MaxOps=3, **dict(straddle, AuthPos=[500, 1000]))]
         return cs
     script = [full(a) for a in C10_PREFIX]
     base = dict(Script=script, Acts=C10_ACTS, FeeVals=[7, 100003], UnAuthPos=[500], WdPos=[500], CostVals=[[0, 100]],
@@ -692,6 +727,9 @@ def run_check(ctx, prop):
             if e["act"]["name"] == "Commit" and e["act"].get("ok", True) and e["from"]["ong"].get("gov", 0) > e["from"]["splitFee"]:
                 k = split_class(e["from"], c["K"])
                 classes[k] = classes.get(k, 0) + 1
+            if e["act"]["name"] == "UnAuthorize" and e["act"].get("ok", True):
+                for k in unauth_classes(e):
+                    classes[k] = classes.get(k, 0) + 1
         paths, ncov = ctx.cover(edges, inits, max_len=len(c["Script"]) + c["MaxOps"] + 2)
         if ncov != len(edges):
             ctx.infra("cover reached %d of %d edges" % (ncov, len(edges)))
@@ -715,11 +753,16 @@ def run_check(ctx, prop):
     if missing and not ctx.infra_errors:
         ctx.infra("vacuous model run: actions never taken successfully: %s" % missing)
     if prop == "C10":
-        cov["settlement_classes"] = classes
+        cov["settlement_classes"] = {k: classes.get(k, 0) for k in PARAM_CLASSES}
         cov["sensitivity_runs"] = [v for v in sens_res if v]
         lacking = [k for k in PARAM_CLASSES if not classes.get(k)]
         if lacking and not ctx.infra_errors:
             ctx.infra("vacuous model run: no settlement with income explored for %s" % lacking)
+    else:
+        cov["unauthorize_classes"] = {k: classes.get(k, 0) for k in UNAUTH_CLASSES}
+        lacking = [k for k in UNAUTH_CLASSES if not classes.get(k)]
+        if lacking and not ctx.infra_errors:
+            ctx.infra("vacuous model run: no successful un-authorize explored for %s" % lacking)
     # code -> spec: seeded random histories on the real contract, validated by TLC
     ct = conf(tag="trace", Cand=["p1", "p2"])
     nt, nst = (16, 120) if ctx.thorough else (5, 70)
